@@ -16,7 +16,7 @@ import (
 
 // types whose String()/parse() follow the presentation grammar of Model/Present.v
 // (playout); tied to the model by the "covered" case.
-var coveredTypes = []uint16{1, 2, 3, 4, 5, 6, 7, 8, 9, 12, 13, 14, 15, 16, 17, 18, 19, 20, 21, 23, 24, 25, 26, 30, 31, 32, 33, 35, 36, 37, 39, 43, 44,
+var coveredTypes = []uint16{1, 2, 3, 4, 5, 6, 7, 8, 9, 12, 13, 14, 15, 16, 17, 18, 19, 20, 21, 23, 24, 25, 26, 27, 30, 31, 32, 33, 35, 36, 37, 39, 43, 44,
 	46, 47, 48, 49, 50, 51, 52, 53, 56, 57, 58, 59, 60, 61, 62, 63, 99, 100, 101, 102, 104, 105, 106, 107, 108, 109, 256, 257, 258, 261, 32768, 32769}
 
 func isCovered(t uint16) bool {
@@ -26,6 +26,29 @@ func isCovered(t uint16) bool {
 		}
 	}
 	return false
+}
+
+// floatSimple: the plain decimals for which the model knows that
+// strconv.ParseFloat accepts them (Model/Present.v float_simple).
+func floatSimple(s string) bool {
+	if len(s) == 0 || len(s) > 300 {
+		return false
+	}
+	if s[0] == '+' || s[0] == '-' {
+		s = s[1:]
+	}
+	point, digit := false, false
+	for i := 0; i < len(s); i++ {
+		switch {
+		case s[i] >= '0' && s[i] <= '9':
+			digit = true
+		case s[i] == '.' && !point:
+			point = true
+		default:
+			return false
+		}
+	}
+	return digit
 }
 
 func hexList(ss []string) string {
@@ -583,6 +606,9 @@ func emitRecords(r *Rng, tier string, types []uint16) (printed []string) {
 			}
 			Emit("present", append([]string{Itoa(int(t))}, pvals(rr, now)...), Hs(rest))
 			// parse: only text that the oracle accepts (the defects are reported by the oracles)
+			if g, ok := rr.(*dns.GPOS); ok && !(floatSimple(g.Longitude) && floatSimple(g.Latitude) && floatSimple(g.Altitude)) {
+				continue // ParseFloat is modelled for plain decimals only
+			}
 			if o := checkRecord(rr, nil); o.Kind == "" || strings.HasPrefix(o.Kind, "generic") || strings.HasPrefix(o.Kind, "torfc") {
 				Emit("rr", []string{Hs(text + "\n")}, showRRAs(text+"\n", "fields"))
 				if i < 3 {
@@ -655,6 +681,8 @@ func emitRecords(r *Rng, tier string, types []uint16) (printed []string) {
 		{"x. 5 IN RRSIG type65 8 2 3600 20110403154150.5 4294967295 12345 example AAAA\n", "fields"}, {"x. 5 IN RRSIG a 8 2 3600 4294967296 0 1 e. AAAA\n", "fields"},
 		{"x. 5 IN RRSIG ANY rsasha256 2 3600 1 0 1 e. AAAA\n", "fields"}, {"x. 5 IN RRSIG BOGUS 8 2 3600 1 0 1 e. AAAA\n", "fields"}, {"x. 5 IN RRSIG TYPE65536 8 2 3600 1 0 1 e. AAAA\n", "fields"},
 		{"x. 5 IN RRSIG A 8 2 3600 20230229000000 0 1 e. AAAA\n", "fields"}, {"x. 5 IN RRSIG A 8 2 3600 22420101000000 19700101000000 1 e. AAAA\n", "fields"},
+		{"x. 5 IN GPOS -32.6882 116.2 10.0\n", "fields"}, {"x. 5 IN GPOS +1 .5 1.\n", "fields"}, {"x. 5 IN GPOS 1 2\n", "fields"}, {"x. 5 IN GPOS 1 2 3 4\n", "fields"},
+		{"x. 5 IN GPOS 0 0 0\n", "fields"},
 		{"x. 5 IN EUI48 00-00-5e-00-53-2a\n", "fields"}, {"x. 5 IN EUI48 00-00-5E-00-53-2A\n", "fields"}, {"x. 5 IN EUI48 00-00-5e-00-53\n", "fields"}, {"x. 5 IN EUI48 00-00-5e-00-53-2a-\n", "fields"},
 		{"x. 5 IN EUI48 00:00:5e:00:53:2a\n", "fields"}, {"x. 5 IN EUI48 00-00-5e-00-53-2g\n", "fields"}, {"x. 5 IN EUI48 00-00-5e-00-53-_a\n", "fields"}, {"x. 5 IN EUI48 00-00-5e-00-53-+a\n", "fields"},
 		{"x. 5 IN EUI48 00005e-00-53-2a-11\n", "fields"}, {"x. 5 IN EUI48 00-00-5e-00-53-2a x\n", "fields"},
